@@ -47,6 +47,8 @@ Sig ==
     [] SigId = 9 -> << [n |-> "h", d |-> TChar, k |-> "c"], [n |-> "a", d |-> TInt(2), k |-> "i"] >>
     [] SigId = 10 -> << [n |-> "m", d |-> TList(TList(TBool, 2), 2), k |-> "mb"], [n |-> "a", d |-> TInt(2), k |-> "i"], [n |-> "b", d |-> TInt(2), k |-> "i"] >>
     [] SigId = 11 -> << [n |-> "t", d |-> TTup(<<TInt(2), TTup(<<TBool, TInt(2)>>)>>), k |-> "tt"], [n |-> "c", d |-> TBool, k |-> "b"] >>
+    [] SigId = 12 -> << [n |-> "m", d |-> TList(TList(TBool, 3), 2), k |-> "mb"], [n |-> "a", d |-> TInt(2), k |-> "i"], [n |-> "b", d |-> TInt(2), k |-> "i"] >>
+    [] SigId = 13 -> << [n |-> "t", d |-> TTup(<<TInt(2), TBool>>), k |-> "tp"], [n |-> "s", d |-> TTup(<<TInt(2), TBool>>), k |-> "tp"], [n |-> "a", d |-> TInt(2), k |-> "i"] >>
 
 FixI == 2
 FixF == 2
@@ -66,8 +68,8 @@ ModConsts == {2, 4, 3}
 InScope == {n \in DOMAIN scope : TRUE}
 
 \* ---------------------------------------------------------------- expression actions
-PushVar == \E n \in DOMAIN scope : scope[n] \in {"b", "i", "f", "li", "lb", "t", "ic", "c", "mb", "tt"} /\
-              Push(E(Name(n), IF scope[n] = "ic" THEN "i" ELSE scope[n], scope[n] # "ic"))
+PushVar == \E n \in DOMAIN scope : scope[n] \in {"b", "i", "f", "li", "lb", "t", "ic", "c", "mb", "tt", "tp"} /\
+              Push(E(Name(n), IF scope[n] = "ic" THEN "i" ELSE scope[n], TRUE))
 PushConst == \/ \E v \in IntConsts : Push(E(CI(v), "i", FALSE))
              \/ \E b \in BOOLEAN : Push(E(CB(b), "b", FALSE))
              \/ (\E n \in DOMAIN scope : scope[n] = "f") /\ \E q \in {<<1, 2>>, <<3, 4>>, <<5, 4>>} : Push(E(CastFix(q[1], q[2]), "f", FALSE))
@@ -115,8 +117,9 @@ ListOps == /\ Len(stack) >= 1 /\ Top(0).k \in {"li", "lb"} /\ Top(0).n.T = "Name
               \/ \E j \in {0, 2} : Repl(1, E(Sub(Top(0).n, CI(j)), IF Top(0).k = "li" THEN "i" ELSE "b", TRUE))
               \/ Top(0).k = "li" /\ \E f \in {"sum", "max", "min"} : Repl(1, E(Call1(f, Top(0).n), "i", TRUE))
               \/ Top(0).k = "lb" /\ \E f \in {"all", "any"} : Repl(1, E(Call1(f, Top(0).n), "b", TRUE))
-ListIdx == /\ Len(stack) >= 2 /\ Top(1).k \in {"li", "lb"} /\ Top(1).n.T = "Name" /\ Top(0).k = "i" /\ Top(0).n.T = "Name" /\ Top(0).hv
-           /\ Repl(2, E(Sub(Top(1).n, Top(0).n), IF Top(1).k = "li" THEN "i" ELSE "b", TRUE))
+IntVars == {n \in DOMAIN scope : scope[n] \in {"i", "ic"}}
+ListIdx == /\ Len(stack) >= 1 /\ Top(0).k \in {"li", "lb"} /\ Top(0).n.T = "Name"
+           /\ \E x \in IntVars : Repl(1, E(Sub(Top(0).n, Name(x)), IF Top(0).k = "li" THEN "i" ELSE "b", TRUE))
 ConstListIdx == /\ Len(stack) >= 1 /\ Top(0).k = "i" /\ Top(0).n.T = "Name" /\ Top(0).hv
                 /\ \E L \in {<<1, 2, 3, 2>>, <<0, 3, 1, 1>>} :
                      Repl(1, E(Sub([T |-> "Tuple", elts |-> [j \in 1..Len(L) |-> CI(L[j])]], Top(0).n), "i", TRUE))
@@ -128,7 +131,7 @@ TupSel == /\ Len(stack) >= 1 /\ Top(0).k = "t" /\ Top(0).n.T = "Name"
 LeanBin == /\ Len(stack) >= 2 /\ Top(0).k = Top(1).k /\ Top(0).k \in {"i", "b"} /\ (Top(0).hv \/ Top(1).hv)
            /\ Repl(2, E(Bin(IF Top(0).k = "i" THEN "Add" ELSE "BitXor", Top(1).n, Top(0).n), Top(0).k, TRUE))
 LeanCmp == /\ Len(stack) >= 2 /\ Top(0).k = "i" /\ Top(1).k = "i" /\ (Top(0).hv \/ Top(1).hv)
-           /\ Repl(2, E(Cmp("Gt", Top(1).n, Top(0).n), "b", TRUE))
+           /\ \E op \in {"Gt", "GtE", "LtE"} : Repl(2, E(Cmp(op, Top(1).n, Top(0).n), "b", TRUE))
 LeanStep == /\ Len(stack) < MaxStack + 1
             /\ (PushVar \/ LeanBin \/ LeanCmp \/ \E v \in {1} : Push(E(CI(v), "i", FALSE)))
             /\ UNCHANGED <<frames, scope, nst, done>>
@@ -141,12 +144,18 @@ CharOps == /\ Len(stack) >= 1 /\ Top(0).k = "c" /\ Top(0).hv
 CharIf == /\ Len(stack) >= 2 /\ Top(1).k = "b" /\ Top(1).hv /\ Top(0).k = "c"
           /\ Repl(2, E(IfE(Top(1).n, Top(0).n, CS("x", 120)), "c", TRUE))
 MatOps == /\ Len(stack) >= 1 /\ Top(0).k = "mb" /\ Top(0).n.T = "Name"
-          /\ \/ \E r \in {0, 1}, cc \in {0, 1} : Repl(1, E(Sub(Sub(Top(0).n, CI(r)), CI(cc)), "b", TRUE))
+          /\ \/ \E r \in {0, 1}, cc \in (IF SigId = 12 THEN {0, 1, 2} ELSE {0, 1}) : Repl(1, E(Sub(Sub(Top(0).n, CI(r)), CI(cc)), "b", TRUE))
              \/ Repl(1, E(Call1("len", Top(0).n), "i", FALSE))
              \/ \E r \in {0, 1} : Repl(1, E(Sub(Top(0).n, CI(r)), "lb", TRUE))
-MatIdx == /\ Len(stack) >= 3 /\ Top(2).k = "mb" /\ Top(2).n.T = "Name" /\ Top(1).k = "i" /\ Top(1).n.T = "Name" /\ Top(1).hv
-          /\ Top(0).k = "i" /\ Top(0).n.T = "Name" /\ Top(0).hv
-          /\ Repl(3, E(Sub(Sub(Top(2).n, Top(1).n), Top(0).n), "b", TRUE))
+MatIdx == /\ Len(stack) >= 1 /\ Top(0).k = "mb" /\ Top(0).n.T = "Name"
+          /\ \E x, y \in IntVars : Repl(1, E(Sub(Sub(Top(0).n, Name(x)), Name(y)), "b", TRUE))
+\* whole-tuple comparison (two tuple arguments, or a tuple and a display of scalars) and element selection
+TupCmp == /\ Len(stack) >= 2 /\ Top(0).k = "tp" /\ Top(1).k = "tp"
+          /\ \E op \in {"Eq", "NotEq"} : Repl(2, E(Cmp(op, Top(1).n, Top(0).n), "b", TRUE))
+TupDisp == /\ Len(stack) >= 2 /\ Top(1).k = "i" /\ Top(0).k = "b" /\ (Top(0).hv \/ Top(1).hv)
+           /\ Repl(2, E([T |-> "Tuple", elts |-> <<Top(1).n, Top(0).n>>], "tp", TRUE))
+TupSel2 == /\ Len(stack) >= 1 /\ Top(0).k = "tp" /\ Top(0).n.T = "Name"
+           /\ (Repl(1, E(Sub(Top(0).n, CI(0)), "i", TRUE)) \/ Repl(1, E(Sub(Top(0).n, CI(1)), "b", TRUE)))
 NestSel == /\ Len(stack) >= 1 /\ Top(0).k = "tt" /\ Top(0).n.T = "Name"
            /\ \/ Repl(1, E(Sub(Top(0).n, CI(0)), "i", TRUE))
               \/ Repl(1, E(Sub(Sub(Top(0).n, CI(1)), CI(0)), "b", TRUE))
@@ -155,7 +164,7 @@ NestSel == /\ Len(stack) >= 1 /\ Top(0).k = "tt" /\ Top(0).n.T = "Name"
 ExprStep == /\ ~Lean /\ Len(stack) < MaxStack + 1
             /\ \/ PushVar \/ PushConst \/ IntBin \/ IntShift \/ IntMod \/ IntInv \/ IntPow \/ IntCmp \/ BoolCmp
                \/ BoolBin \/ BoolTern \/ BoolNot \/ IfExpr \/ MinMax2 \/ BitSel \/ FixBin \/ FixMul \/ FixConv
-               \/ ListOps \/ ListIdx \/ ConstListIdx \/ TupSel \/ CharOps \/ CharIf \/ MatOps \/ MatIdx \/ NestSel
+               \/ ListOps \/ ListIdx \/ ConstListIdx \/ TupSel \/ CharOps \/ CharIf \/ MatOps \/ MatIdx \/ NestSel \/ TupCmp \/ TupDisp \/ TupSel2
             /\ UNCHANGED <<frames, scope, nst, done>>
 
 \* ---------------------------------------------------------------- statement actions
